@@ -1,4 +1,5 @@
 import BppProofs.Lemmas.GraphLegacy
+import BppProofs.Lemmas.ObserverLegacy
 /-!
 # C14 — witnesses: the unchanged tree violated the invariant
 
@@ -39,5 +40,19 @@ example : Consistent ((Graph.empty false).run [.createNode, .createNode, .link 1
   (check_iff _).mp (by decide)
 example : Consistent ((Graph.empty false).run [.createNode, .createNode, .link 1 0, .makeDirected]) :=
   (check_iff _).mp (by decide)
+
+/-- observer `operator=` of the unchanged tree (corpus/C14/03 `w_assign_same_graph`): the target - a
+copy that knows object 1 on node 0 - is assigned from the source.  Afterwards its object→id map has
+two keys for node 0 (the old object and the new one, owner tag 9: in none of the pools), so the
+maps are not inverse of each other and the copy holds an object that is not its own -/
+theorem legacy_observer_assign_witness :
+    (Legacy.assignI 9 (Obs.tag 0 { gN := [some 1], Ng := [(1, 0)] }) (Obs.tag 1 { gN := [some 1], Ng := [(1, 0)] })).foreign 1
+      = some "graphidToN" ∧
+    ((Legacy.assignI 9 (Obs.tag 0 { gN := [some 1], Ng := [(1, 0)] }) (Obs.tag 1 { gN := [some 1], Ng := [(1, 0)] })).labels.check
+      ((Graph.empty false).run [.createNode])) = some "maps_sorted" := by
+  decide
+
+/-- … while the repaired assignment is the copy constructor (`copy_independent`, `assign_same_relations`) -/
+example : (IObs.copyI 1 (Obs.tag 0 { gN := [some 1], Ng := [(1, 0)] })).foreign 1 = none := by decide
 
 end Bpp.C14
